@@ -35,6 +35,20 @@ def run_impl(harness, lines):
         res.append(d)
     return res
 
+def judge_c10(nums, v, y):
+    """(relative error, reason or None) of one IntOfLogPoly4 evaluation against the property's formula"""
+    if v == 1.0 and y != nums[0]:
+        return 0.0, "value at v=1 is not exactly k"
+    exact, mag = q4_exact(nums, v)
+    if mag == 0:
+        return 0.0, None
+    if mag > mp.mpf(10) ** 290 or (y != y) or abs(y) == float('inf'):
+        return 0.0, None   # overflow range: outside the property's finite quantifier
+    err = abs(mp.mpf(y) - exact) / mag
+    if err > mp.mpf('1e-12'):
+        return float(err), f"relative error {float(err):.3e} > 1e-12 (v={v!r}, x={float(-mp.log(mp.mpf(v))):.6g})"
+    return float(err), None
+
 def c10(args, rng):
     n_sweep = 3000 if args.tier == 'quick' else 120000
     ulps = 1500 if args.tier == 'quick' else 4000
@@ -66,22 +80,18 @@ def c10(args, rng):
         distinct.add(line)
         if o.get('impl') == 'PANIC':
             failures.append(mkfail(line, 'panic for v>0')); continue
-        y = fh(o['impl'])
-        exact, mag = q4_exact(nums, v)
-        if mag == 0: continue
-        if mag > mp.mpf(10) ** 290 or (y != y) or abs(y) == float('inf'):
-            continue   # overflow range: outside the property's finite quantifier
-        err = abs(mp.mpf(y) - exact) / mag
-        worst = max(worst, float(err))
-        if err > mp.mpf('1e-12'):
-            failures.append(mkfail(line, f"relative error {float(err):.3e} > 1e-12 (v={v!r}, x={float(-mp.log(mp.mpf(v))):.6g})"))
+        err, why = judge_c10(nums, v, fh(o['impl']))
+        worst = max(worst, err)
+        if why:
+            failures.append(mkfail(line, why))
     # value at v = 1 is exactly k
     for _ in range(50):
         nums = [rng.uniform(-100, 100) for _ in range(6)]
         line = f"eval T=q4 p={','.join(hx(t) for t in nums)} x={hx(1.0)}"
         o = run_impl(args.harness, [line])[0]
-        if fh(o['impl']) != nums[0]:
-            failures.append(mkfail(line, "value at v=1 is not exactly k"))
+        _, why = judge_c10(nums, 1.0, fh(o['impl']))
+        if why:
+            failures.append(mkfail(line, why))
     return dict(evaluations=len(cases) + 50, distinct_nontrivial=len(distinct), classes=classes, worst_relative_error=worst,
                 failures=failures[:20], samples=cases[:2],
                 rule="C10: every float within N ulps of v=1 and of both switch points, sweep of x in [-40,40], powers of two 2^-1000..2^1000; reference = 400-bit mpmath; tolerance 1e-12 * sum of term magnitudes")
@@ -98,9 +108,42 @@ def poly_ln_integral(cs, a, b):
     F = lambda t: t * sum(qi * mp.log(t) ** i for i, qi in enumerate(q))
     return F(mp.mpf(b)) - F(mp.mpf(a))
 
+def c09_run(items, harness):
+    """items: (deg, cs, kx, ky, a, b, line).  Builds F = integral(knot) with the implementation, evaluates it at
+    knot.x, a, b and compares F(knot.x) with knot.y and F(b)-F(a) with the closed-form integral."""
+    outs = run_impl(harness, [it[6] for it in items])
+    ev_lines, ev_items = [], []
+    for it, o in zip(items, outs):
+        if o.get('impl') == 'PANIC':
+            continue
+        deg, cs, kx, ky, a, b, line = it
+        tag = 'q4' if deg == 4 else f'i{deg}'
+        for pt in (kx, a, b):
+            ev_lines.append(f"eval T={tag} p={o['impl']} x={hx(pt)}")
+        ev_items.append(it)
+    evs = run_impl(harness, ev_lines) if ev_lines else []
+    failures, worst = [], 0.0
+    for i, (deg, cs, kx, ky, a, b, line) in enumerate(ev_items):
+        Fk, Fa, Fb = [fh(evs[3 * i + j]['impl']) for j in range(3)]
+        # magnitudes of the construction: |F| at the three points plus the antiderivative terms
+        la, lb, lk = [abs(mp.log(mp.mpf(t))) for t in (a, b, kx)]
+        L = max(la, lb, lk, 1)
+        scale = sum(abs(mp.mpf(c)) for c in cs) * mp.factorial(deg) * L ** deg * max(a, b, kx) + abs(ky) + 1
+        tol = mp.mpf(2) ** -53 * 2 ** 12 * scale
+        full = line + f" # a={hx(a)} b={hx(b)}"
+        if not (abs(mp.mpf(Fk) - mp.mpf(ky)) <= tol):
+            failures.append(mkfail(full, f"F(knot.x)={Fk!r} but knot.y={ky!r}")); continue
+        exact = poly_ln_integral(cs, a, b)
+        err = abs((mp.mpf(Fb) - mp.mpf(Fa)) - exact)
+        if err == err:
+            worst = max(worst, float(err / scale))
+        if not (err <= tol):
+            failures.append(mkfail(full, f"F(b)-F(a)={float(mp.mpf(Fb)-mp.mpf(Fa))!r} (a={a!r}, b={b!r}) but the integral of p(ln t) over [a,b] is {float(exact)!r}"))
+    return failures, worst, len(ev_lines)
+
 def c09(args, rng):
     n = 1500 if args.tier == 'quick' else 60000
-    cases, meta = [], []
+    items, classes, distinct = [], {}, set()
     for _ in range(n):
         deg = rng.randint(0, 8)
         style = rng.random()
@@ -111,41 +154,30 @@ def c09(args, rng):
             p1, p2, p3, p4 = [float(rng.randint(-3, 3)) for _ in range(4)]
             cs = [p1 - 2 * p2 + 6 * p3 - 24 * p4, p1, p2, p3, p4]
         ky = rng.uniform(-5, 5)
-        cases.append(f"integral T=l{deg} p={','.join(hx(t) for t in cs)} k={hx(kx)},{hx(ky)}")
-        meta.append((deg, cs, kx, ky))
-    outs = run_impl(args.harness, cases)
-    # second round: evaluate the returned F at knot.x, a, b
-    ev_lines, ev_meta = [], []
-    for (deg, cs, kx, ky), line, o in zip(meta, cases, outs):
-        if o.get('impl') == 'PANIC':
-            continue
-        tag = 'q4' if deg == 4 else f'i{deg}'
         a = rng.choice([rng.uniform(0.05, 20), kx, 1.0, rng.uniform(0.7, 1.4), 10.0 ** rng.uniform(-15, -2)])
         b = rng.choice([rng.uniform(0.05, 20), rng.uniform(0.7, 1.4), 2.0 ** rng.randint(-4, 4), 10.0 ** rng.uniform(-15, -2)])
-        for pt in (kx, a, b):
-            ev_lines.append(f"eval T={tag} p={o['impl']} x={hx(pt)}")
-        ev_meta.append((deg, cs, kx, ky, a, b, line))
-    evs = run_impl(args.harness, ev_lines)
-    failures, worst, classes, distinct = [], 0.0, {}, set()
-    for i, (deg, cs, kx, ky, a, b, line) in enumerate(ev_meta):
-        Fk, Fa, Fb = [fh(evs[3 * i + j]['impl']) for j in range(3)]
+        line = f"integral T=l{deg} p={','.join(hx(t) for t in cs)} k={hx(kx)},{hx(ky)}"
+        items.append((deg, cs, kx, ky, a, b, line))
         classes[f"deg{deg}"] = classes.get(f"deg{deg}", 0) + 1
         distinct.add(line)
-        # magnitudes of the construction: |F| at the three points plus the antiderivative terms
-        la, lb, lk = [abs(mp.log(mp.mpf(t))) for t in (a, b, kx)]
-        L = max(la, lb, lk, 1)
-        scale = sum(abs(mp.mpf(c)) for c in cs) * mp.factorial(deg) * L ** deg * max(a, b, kx) + abs(ky) + 1
-        tol = mp.mpf(2) ** -53 * 2 ** 12 * scale
-        if abs(mp.mpf(Fk) - mp.mpf(ky)) > tol:
-            failures.append(mkfail(line, f"F(knot.x)={Fk!r} but knot.y={ky!r}")); continue
-        exact = poly_ln_integral(cs, a, b)
-        err = abs((mp.mpf(Fb) - mp.mpf(Fa)) - exact)
-        worst = max(worst, float(err / scale))
-        if err > tol:
-            failures.append(mkfail(line + f" # a={a!r} b={b!r}", f"F(b)-F(a)={float(mp.mpf(Fb)-mp.mpf(Fa))!r} but the integral of p(ln t) over [a,b] is {float(exact)!r}"))
-    return dict(evaluations=len(cases) + len(ev_lines), distinct_nontrivial=len(distinct), classes=classes, worst_scaled_error=worst,
-                failures=failures[:20], samples=cases[:2],
+    failures, worst, nev = c09_run(items, args.harness)
+    return dict(evaluations=len(items) + nev, distinct_nontrivial=len(distinct), classes=classes, worst_scaled_error=worst,
+                failures=failures[:20], samples=[it[6] for it in items[:2]],
                 rule="C09: random degree 0..8, coefficients, knot x>0 (incl. away from 1), points a,b>0; F(knot.x)=knot.y and F(b)-F(a) vs the closed-form integral in 400-bit mpmath; tolerance 2^12 u * (sum|c| n! L^n max(a,b,kx) + |ky| + 1)")
+
+def judge_c01(cs, v, y):
+    deg = len(cs) - 1
+    L = mp.log(mp.mpf(v))
+    exact = sum(mp.mpf(c) * L ** i for i, c in enumerate(cs))
+    S = sum(abs(mp.mpf(c)) * abs(L) ** i for i, c in enumerate(cs))
+    dS = sum(i * abs(mp.mpf(c)) * abs(L) ** (i - 1) for i, c in enumerate(cs) if i > 0)
+    u = mp.mpf(2) ** -53
+    tol = 4 * (deg + 2) * u * S + 4 * u * abs(L) * dS + mp.mpf(2) ** -1070
+    err = abs(mp.mpf(y) - exact) if y == y and abs(y) != float('inf') else mp.inf
+    w = float(err / (u * (S + abs(L) * dS) + mp.mpf(2) ** -1070)) if S > 0 else 0.0
+    if err > tol:
+        return w, f"Log evaluate at v={v!r}: |impl - p(ln v)| = {float(err):.3e} exceeds 4(n+2)u*sum|c||ln v|^i + propagated ulp of ln ({float(tol):.3e})"
+    return w, None
 
 def c01(args, rng):
     """Log<PolyK>::evaluate(v) against p(ln v) with the true logarithm"""
@@ -164,28 +196,51 @@ def c01(args, rng):
         distinct.add(line)
         if o.get('impl') == 'PANIC':
             failures.append(mkfail(line, 'panic for v>0')); continue
-        y = fh(o['impl'])
-        L = mp.log(mp.mpf(v))
-        exact = sum(mp.mpf(c) * L ** i for i, c in enumerate(cs))
-        S = sum(abs(mp.mpf(c)) * abs(L) ** i for i, c in enumerate(cs))
-        dS = sum(i * abs(mp.mpf(c)) * abs(L) ** (i - 1) for i, c in enumerate(cs) if i > 0)
-        u = mp.mpf(2) ** -53
-        tol = 4 * (deg + 2) * u * S + 4 * u * abs(L) * dS + mp.mpf(2) ** -1070
-        err = abs(mp.mpf(y) - exact) if y == y and abs(y) != float('inf') else mp.inf
-        if S > 0:
-            worst = max(worst, float(err / (u * (S + abs(L) * dS) + mp.mpf(2) ** -1070)))
-        if err > tol:
-            failures.append(mkfail(line, f"Log evaluate at v={v!r}: |impl - p(ln v)| = {float(err):.3e} exceeds 4(n+2)u*sum|c||ln v|^i + propagated ulp of ln ({float(tol):.3e})"))
+        w, why = judge_c01(cs, v, fh(o['impl']))
+        worst = max(worst, w)
+        if why:
+            failures.append(mkfail(line, why))
     return dict(evaluations=len(cases), distinct_nontrivial=len(distinct), classes=classes, worst_error_in_units=worst,
                 failures=failures[:20], samples=cases[:2],
                 rule="C01/Log: degrees 0..8, v from 1e-300 to 1e300 incl. tiny v and v within 50 ulps of 1; reference p(ln v) in 400-bit mpmath; tolerance 4(n+2)u*sum|c||ln v|^i + 4u|ln v|*sum i|c||ln v|^(i-1)")
+
+def replay(args):
+    """re-judge the oracle-found lines of a replay file against the current implementation"""
+    bad = 0
+    for raw in open(args.replay):
+        raw = raw.strip()
+        if not raw or raw.startswith('#'):
+            continue
+        line, _, tail = raw.partition(' # ')
+        d = dict(t.split('=', 1) for t in line.split()[1:] if '=' in t)
+        cmd, T = line.split()[0], d.get('T', '')
+        why = None
+        if cmd == 'eval' and T == 'q4' and 'x' in d:
+            o = run_impl(args.harness, [line])[0]
+            why = 'panic for v>0' if o.get('impl') == 'PANIC' else judge_c10([fh(t) for t in d['p'].split(',')], fh(d['x']), fh(o['impl']))[1]
+        elif cmd == 'eval' and T.startswith('l') and 'x' in d:
+            o = run_impl(args.harness, [line])[0]
+            why = 'panic for v>0' if o.get('impl') == 'PANIC' else judge_c01([fh(t) for t in d['p'].split(',')], fh(d['x']), fh(o['impl']))[1]
+        elif cmd == 'integral' and T.startswith('l') and tail:
+            ab = dict(t.split('=', 1) for t in tail.split() if '=' in t)
+            kx, ky = [fh(t) for t in d['k'].split(',')]
+            fails, _, _ = c09_run([(int(T[1:]), [fh(t) for t in d['p'].split(',')], kx, ky, fh(ab['a']), fh(ab['b']), line)], args.harness)
+            why = fails[0]['shrunk_response'] if fails else None
+        else:
+            continue
+        print(('ORACLE-FAIL ' + why if why else 'oracle-ok') + ' :: ' + raw[:200])
+        bad += 1 if why else 0
+    sys.exit(1 if bad else 0)
 
 def main():
     ap = argparse.ArgumentParser()
     ap.add_argument('--tier', default='quick'); ap.add_argument('--seed', type=int, default=1)
     ap.add_argument('--harness', required=True); ap.add_argument('--out', required=True); ap.add_argument('--prop', required=True)
+    ap.add_argument('--replay')
     args = ap.parse_args()
-    rng = random.Random(args.seed * 7919 + hash(args.prop) % 1000)
+    if args.replay:
+        return replay(args)
+    rng = random.Random(args.seed * 7919 + sum(map(ord, args.prop)))
     t0 = time.time()
     res = c10(args, rng) if args.prop == 'C10' else (c01(args, rng) if args.prop == 'C01' else c09(args, rng))
     res['wall_s'] = time.time() - t0
